@@ -49,6 +49,9 @@ func (a *ake) wipe(wipeKeys bool) {
 	a.theirPublicValue = nil
 
 	wipeBytes(a.r[:])
+	a.ssid = [8]byte{}
+	a.theirKey = nil
+	a.sentRevealSig = false
 
 	a.wipeGX()
 	a.revealKey.unlock()
